@@ -249,7 +249,7 @@ func verifHarness_C13_accepthup() {
 // table, after the listener was detached and closed; the busy connection is not closed while
 // its handler runs; if the context fires first its error is returned.
 //
-//verif:bounds 2 tracked connections (1 idle, 1 busy, either order in the table); the busy handler finishes after 0..2 waits or never; context fires or not
+//verif:bounds 2 tracked connections (1 idle, 1 busy: handler running / unread input / unsent output, either order in the table); the busy one finishes after 0..2 waits or never; context fires or not
 //verif:loop 40
 //verif:replay interp
 //verif:blockok
@@ -265,8 +265,19 @@ func verifHarness_C13_shutdown() {
 	bi := verifPick("busy.index", 0, 1)
 	idle := verifMap.vals[1-bi].(*connection)
 	busy := verifMap.vals[bi].(*connection)
-	// the busy one: its handler is running (it holds the processing lock)
-	verifAssume(busy.lock(processing))
+	// why it is busy: its handler is running (it holds the processing lock), or it has unread
+	// input buffered, or output that the kernel has not taken yet
+	kind := verifPick("busy.kind", 0, 2)
+	switch kind {
+	case 0:
+		verifAssume(busy.lock(processing))
+	case 1:
+		busy.inputBuffer.Malloc(3)
+		busy.inputBuffer.Flush()
+	case 2:
+		busy.outputBuffer.Malloc(3)
+		busy.outputBuffer.Flush()
+	}
 	finishAfter := verifPick("busy.finishes.after", 0, 3)
 	ctx := &verifDialCtxS{done: make(chan struct{})}
 	fireCtx := verifNondetBool("ctx.fires")
@@ -275,8 +286,17 @@ func verifHarness_C13_shutdown() {
 		round++
 		verifAssert(busy.IsActive(), "C13/busy-connection-closed-while-handler-runs")
 		if round == finishAfter {
-			// the handler returns: the connection becomes idle
-			busy.unlock(processing)
+			// the handler returns / the buffer drains: the connection becomes idle
+			switch kind {
+			case 0:
+				busy.unlock(processing)
+			case 1:
+				busy.inputBuffer.Skip(3)
+				busy.inputBuffer.Release()
+			case 2:
+				busy.outputBuffer.Skip(3)
+				busy.outputBuffer.Release()
+			}
 		}
 		if fireCtx && round == 2 {
 			ctx.err = context.DeadlineExceeded
@@ -286,10 +306,66 @@ func verifHarness_C13_shutdown() {
 	err := s.Close(ctx)
 	verifAssert(verifSrv.lnDetached == 1 && verifSrv.lnClosed == 1, "C13/listener-not-detached-and-closed-once")
 	verifAssert(!idle.IsActive(), "C13/idle-connection-not-closed")
+	if finishAfter == 0 || round < finishAfter {
+		// still busy when Shutdown returned: it was left running
+		verifAssert(busy.IsActive(), "C13/busy-connection-closed-by-shutdown")
+	}
 	if err == nil {
 		verifAssert(verifMapCount() == 0, "C13/shutdown-nil-with-tracked-connections")
 	} else {
 		verifAssert(fireCtx && err == context.DeadlineExceeded, "C13/shutdown-error-without-context-error")
+	}
+	verifReach("end")
+}
+
+// Descriptor number reuse across close and accept: connection A (descriptor 7) is closed by the
+// user; at the moment the kernel releases the number (inside close(2), i.e. while A's teardown
+// is still in progress) the accept loop — another goroutine — may accept connection B, which
+// gets the same number. Afterwards B is tracked and alive, A is not tracked.
+//
+//verif:bounds 1 tracked connection closed by the user; 0..1 new connection accepted with the re-issued descriptor number at the close(2) boundary
+//verif:loop 40
+//verif:replay interp
+func verifHarness_C13_reuse() {
+	s, ln := verifSrvSetup(verifSrvHandler)
+	ln.script[0] = 1
+	s.OnRead(nil)
+	for verifRunPending() {
+	}
+	verifAssume(verifMapCount() == 1)
+	var a *connection
+	for i := 0; i < 4; i++ {
+		if verifMap.used[i] {
+			a = verifMap.vals[i].(*connection)
+		}
+	}
+	reissue := verifNondetBool("reissue.at.close")
+	accepted := false
+	verifCloseHook = func(fd int) {
+		if fd == 7 && reissue && !accepted {
+			accepted = true
+			ln.nextFd = 7
+			ln.script[ln.pos] = 1
+			s.OnRead(nil)
+		}
+	}
+	a.Close()
+	verifCloseHook = nil
+	for verifRunPending() {
+	}
+	verifAssert(!a.IsActive(), "C13/closed-connection-still-active")
+	tracked := 0
+	verifMapRange(&s.connections, func(k, v interface{}) bool {
+		c := v.(*connection)
+		verifAssert(c != a, "C13/closed-connection-still-tracked")
+		verifAssert(c.IsActive(), "C13/closed-connection-still-tracked")
+		tracked++
+		return true
+	})
+	if accepted {
+		verifAssert(tracked == 1, "C13/accepted-connection-not-tracked")
+	} else {
+		verifAssert(tracked == 0, "C13/closed-connection-still-tracked")
 	}
 	verifReach("end")
 }
